@@ -53,7 +53,7 @@ def count_numerals(tree):
 def gen_cases(rng, tier):
     """generated worlds: 'plain' (constants representable at the exporter's decimals; with probes) and 'rounding'
     (long constants; the text-level units only)"""
-    n_plain, n_round = {"quick": (45, 25), "thorough": (420, 220)}[tier]
+    n_plain, n_round = {"quick": (45, 25), "thorough": (360, 180)}[tier]
     out = []
     while len([c for c in out if c["kind"] == "plain"]) < n_plain:
         w = G.gen_world(rng, max_actions=rng.choice([1, 2, 2, 3]))
